@@ -58,13 +58,44 @@ pub fn failed() -> bool {
     FAILED.load(SeqCst)
 }
 
+/// adversary mode (C08 replay): before every step of thread 1 a helper thread completes one full write
+pub static ADV_BUDGET: AtomicUsize = AtomicUsize::new(0);
+static ADV: Mutex<Option<(Sender<()>, std::sync::mpsc::Receiver<()>)>> = Mutex::new(None);
+
+pub fn install_adversary(f: extern "C" fn(), budget: usize) {
+    let (req_tx, req_rx) = channel::<()>();
+    let (done_tx, done_rx) = channel::<()>();
+    std::thread::spawn(move || {
+        set_my_id(-1);
+        while req_rx.recv().is_ok() {
+            f();
+            let _ = done_tx.send(());
+        }
+    });
+    *ADV.lock().unwrap() = Some((req_tx, done_rx));
+    ADV_BUDGET.store(budget, SeqCst);
+}
+
 /// Wait for this thread's turn in the schedule.
 pub fn gate_enter() {
     let id = my_id();
     if id < 0 {
         return;
     }
-    STEPS.fetch_add(1, Relaxed);
+    let n = STEPS.fetch_add(1, Relaxed) + 1;
+    let budget = ADV_BUDGET.load(Relaxed);
+    if budget != 0 {
+        if n > budget {
+            println!("STEP-BUDGET-EXCEEDED steps={} budget={}", n, budget);
+            std::process::exit(7);
+        }
+        let g = ADV.lock().unwrap();
+        if let Some((tx, rx)) = g.as_ref() {
+            tx.send(()).unwrap();
+            rx.recv().unwrap();
+        }
+        return;
+    }
     if FREE_RUN.load(SeqCst) {
         return;
     }
